@@ -194,6 +194,16 @@ CM_ATOMS = {
         {"num": [0, 1], "den": [1], "lo": -100, "hi": 0},
         {"num": [0, 2], "den": [1], "lo": {"v": 0, "it": "OPEN"}, "hi": 50},
         {"num": [50, 1], "den": [1], "lo": {"v": 50, "it": "OPEN"}, "hi": 100}]}, (-100, 100)),
+    # a plateau between two rising scales: the plateau's value 10 is also the image of the boundary
+    # value 10 of the first scale; the plateau encodes to its COMPU-INVERSE-VALUE
+    "scale-plateau": ("A_UINT32", "A_INT32", {"cat": "SCALE-LINEAR", "scales": [
+        {"num": [0, 1], "den": [1], "lo": 0, "hi": 10},
+        {"num": [10, 0], "den": [1], "lo": 10, "hi": 20, "inv": 15},
+        {"num": [-10, 1], "den": [1], "lo": {"v": 20, "it": "OPEN"}, "hi": 30}]}, (0, 30)),
+    # a text table with a COMPU-DEFAULT-VALUE: internal values outside all scales decode to it
+    "texttable-default": ("A_UINT32", "A_UNICODE2STRING", {"cat": "TEXTTABLE", "scales": [
+        {"lo": 0, "hi": 0, "const": "off"}, {"lo": 1, "hi": 5, "const": "on"}], "default": "unknown"},
+        (0, 12)),
     "tab-intp": ("A_UINT32", "A_INT32", {"cat": "TAB-INTP", "points": [(0, 0), (3, 100), (10, 240)],
                                          "scales": [{"lo": 0, "const": 0}, {"lo": 3, "const": 100},
                                                     {"lo": 10, "const": 240}]}, (0, 10)),
@@ -232,8 +242,34 @@ def run_cmatom(sx, cfg, env):
     base["dt"] = it
     if not dop.compu_method.is_valid_internal_value(k):
         sx.cover("invalid-internal")
+        if "default" in cmspec and prop in ("C01", "C02", "C05"):
+            # an internal value outside all scales decodes to the COMPU-DEFAULT-VALUE
+            rp = ref_pdu(base, k)
+            if rp is not None:
+                try:
+                    dec = rq.decode(rp.result())
+                except OdxError:
+                    sx.fail("default-value-is-decoded")
+                    return
+                sx.require(dec["val"] == cmspec["default"], "default-value-is-decoded")
         return
     canonical = True
+    if cmspec["cat"] == "SCALE-LINEAR":
+        # canonical internal values of a plateau (factor 0): its COMPU-INVERSE-VALUE only
+        seg = [sc for sc in cmspec["scales"] if s_and(
+            (k > sc["lo"]["v"]) if isinstance(sc["lo"], dict) and sc["lo"].get("it") == "OPEN"
+            else (k >= (sc["lo"]["v"] if isinstance(sc["lo"], dict) else sc["lo"])), k <= sc["hi"])]
+        if seg and len(seg[0]["num"]) > 1 and seg[0]["num"][1] == 0:
+            # ... unless an earlier scale attains the plateau's value: then the text encodes there
+            level = seg[0]["num"][0] / seg[0].get("den", [1])[0]
+            earlier = cmspec["scales"][:cmspec["scales"].index(seg[0])]
+
+            def _lo(sc):
+                return sc["lo"]["v"] + (1 if sc["lo"].get("it") == "OPEN" else 0) if isinstance(sc["lo"], dict) \
+                    else sc["lo"]
+            attained = any((sc["num"][0] + sc["num"][1] * x) / sc.get("den", [1])[0] == level
+                           for sc in earlier for x in range(_lo(sc), sc["hi"] + 1))
+            canonical = bool(k == seg[0].get("inv")) and not attained
     if cmspec["cat"] == "TEXTTABLE":
         # canonical internal values of a text table: the one the text encodes to
         seg = [sc for sc in cmspec["scales"]
